@@ -793,5 +793,5 @@ pub fn case(tape: &[u8], ctx: &Ctx) -> Outcome {
 }
 
 pub fn property() -> Property {
-    Property { id: "C18", rule: RULE, phases: vec![Phase::Prop { name: "histories x every failing allocation request", f: case, quick: 600_000, thorough: 8_000_000, max_tape: 200 }] }
+    Property { id: "C18", rule: RULE, phases: vec![Phase::Prop { name: "histories x every failing allocation request", f: case, quick: 600_000, thorough: 3_000_000, max_tape: 200 }] }
 }
